@@ -13,16 +13,42 @@ import (
 	"strings"
 )
 
+// byteChunk is the number of bytes per auxiliary definition: Lean's
+// elaborator runs out of recursion depth on list literals with thousands of
+// elements, so a byte list is emitted as `name_0 ++ name_1 ++ …` (via
+// List.flatten) over literals of at most byteChunk elements.
+const byteChunk = 512
+
 func byteList(f *leanFile, doc, name string, data []byte) {
 	f.b.WriteString("\n")
 	f.comment(doc)
-	fmt.Fprintf(&f.b, "def %s : List Nat := [", name)
-	for i, c := range data {
-		if i%32 == 0 {
+	var parts []string
+	for lo := 0; lo < len(data) || lo == 0; lo += byteChunk {
+		hi := min(lo+byteChunk, len(data))
+		part := fmt.Sprintf("%s_%d", name, lo/byteChunk)
+		parts = append(parts, part)
+		fmt.Fprintf(&f.b, "def %s : List Nat := [", part)
+		for i, c := range data[lo:hi] {
+			if i%32 == 0 {
+				f.b.WriteString("\n ")
+			}
+			fmt.Fprintf(&f.b, " %d", c)
+			if lo+i != hi-1 {
+				f.b.WriteByte(',')
+			}
+		}
+		f.b.WriteString("\n]\n")
+		if hi == len(data) {
+			break
+		}
+	}
+	fmt.Fprintf(&f.b, "def %s : List Nat := List.flatten [", name)
+	for i, p := range parts {
+		if i%8 == 0 {
 			f.b.WriteString("\n ")
 		}
-		fmt.Fprintf(&f.b, " %d", c)
-		if i != len(data)-1 {
+		f.b.WriteString(" " + p)
+		if i != len(parts)-1 {
 			f.b.WriteByte(',')
 		}
 	}
@@ -105,7 +131,6 @@ func genTemplate(w *world) string {
 	var configs []string
 	for _, el := range lits[0].Elts {
 		if kv, ok := el.(*ast.KeyValueExpr); ok {
-			el = kv.Value // indexed element `i: {…}`; order of appearance is kept
 			w.failAt(kv.Pos(), "indexed element in the []Tree literal is not supported")
 		}
 		cl, ok := unparen(el).(*ast.CompositeLit)
